@@ -181,7 +181,27 @@ def rule_nonblocking(ctx, rep):
             rep.check(has_wb, "C17.nonblocking", name + ".wouldblock", "can return WOULDBLOCK", "%s never returns WOULDBLOCK" % name, [f.name])
 
 
+def rule_helping(ctx, rep):
+    """lock-free enqueue must help a stalled enqueuer: when linking fails because another node is already linked
+    behind the loaded tail, the loop advances q->tail itself before retrying (otherwise it spins on a suspended thread)"""
+    from . import c12
+    n0 = len(rep.results)
+    c12.rule_enq(ctx, rep)
+    keep = []
+    for r in rep.results[n0:]:
+        if "advance+help" in r["instance"] or "retry-after-help" in r["instance"] or "tail-only-cmpxchg" in r["instance"]:
+            r["rule"] = "C17.helping"
+            r["key"] = r["key"].replace("C12.enq", "C17.helping")
+            if r["status"] != "pass":
+                r["msg"] += " [progress: without the helping cmpxchg every other enqueue retries forever while the thread that linked its node is suspended]"
+            keep.append(r)
+    del rep.results[n0:]
+    rep.results += keep
+    pat.require(keep, "helping instances vanished")
+
+
 RULES = [
+    ("C17.helping", rule_helping),
     ("C17.waitfree", rule_waitfree),
     ("C17.readers", rule_readers),
     ("C17.lockfree", rule_lockfree),
